@@ -11,6 +11,7 @@
 (*         | [k |-> "or",   l |-> Seq(goal), r |-> Seq(goal)]              *)
 (*         | [k |-> "unify", x |-> term, y |-> term]                       *)
 (*         | [k |-> "findall", tmpl |-> term, g |-> Seq(goal), res |-> term]*)
+(*         | [k |-> "all", ...]   (findall that fails on no solutions)      *)
 (* Clause variables are numbered 1..99; each resolution step renames the   *)
 (* clause apart by adding a fresh offset (multiples of 100).               *)
 (* A result is [ovf |-> BOOLEAN, sols |-> Seq(substitution)]; ovf = TRUE   *)
@@ -30,6 +31,7 @@ RenG(g, off) ==
     [] g.k = "or"    -> [ g EXCEPT !.l = RenGs(g.l, off), !.r = RenGs(g.r, off) ]
     [] g.k = "unify" -> [ g EXCEPT !.x = RenT(g.x, off), !.y = RenT(g.y, off) ]
     [] g.k = "findall" -> [ g EXCEPT !.tmpl = RenT(g.tmpl, off), !.g = RenGs(g.g, off), !.res = RenT(g.res, off) ]
+    [] g.k = "all"     -> [ g EXCEPT !.tmpl = RenT(g.tmpl, off), !.g = RenGs(g.g, off), !.res = RenT(g.res, off) ]
 
 Res(ovf, sols, n) == [ ovf |-> ovf, sols |-> sols, n |-> n ]   \* n = resolution steps used so far
 
@@ -62,6 +64,13 @@ Solve(P, goals, s, n, budget) ==
              [] g.k = "findall" ->
                   LET r == Solve(P, g.g, s, n + 1, budget)
                   IN  IF r.ovf THEN r
+                      ELSE LET lst == MkList([ i \in DOMAIN r.sols |-> Apply(g.tmpl, r.sols[i]) ])
+                               u == Unify(g.res, lst, s)
+                           IN  IF u.ok THEN Solve(P, rest, u.s, r.n, budget) ELSE Res(FALSE, << >>, r.n)
+             [] g.k = "all" ->      \* all/3: like findall/3 but fails when there is no solution
+                  LET r == Solve(P, g.g, s, n + 1, budget)
+                  IN  IF r.ovf THEN r
+                      ELSE IF r.sols = << >> THEN Res(FALSE, << >>, r.n)
                       ELSE LET lst == MkList([ i \in DOMAIN r.sols |-> Apply(g.tmpl, r.sols[i]) ])
                                u == Unify(g.res, lst, s)
                            IN  IF u.ok THEN Solve(P, rest, u.s, r.n, budget) ELSE Res(FALSE, << >>, r.n)
